@@ -2708,7 +2708,10 @@ class SFTPClientHandler(SFTPHandler):
         if resptype not in (FXP_STATUS, return_type):
             raise SFTPBadMessage(f'Unexpected response type: {resptype}')
 
-        result = self._packet_handlers[resptype](self, resp)
+        try:
+            result = self._packet_handlers[resptype](self, resp)
+        except PacketDecodeError as exc:
+            raise SFTPBadMessage(str(exc)) from None
 
         if result is not None or return_type is None:
             return result
@@ -2891,8 +2894,11 @@ class SFTPClientHandler(SFTPHandler):
             packet = cast(SSHPacket, await self._make_request(
                 b'limits@openssh.com'))
 
-            limits = SFTPLimits.decode(packet)
-            packet.check_end()
+            try:
+                limits = SFTPLimits.decode(packet)
+                packet.check_end()
+            except PacketDecodeError as exc:
+                raise SFTPBadMessage(str(exc)) from None
 
             limits.log(self.logger, 'Received')
 
@@ -3056,8 +3062,11 @@ class SFTPClientHandler(SFTPHandler):
             packet = cast(SSHPacket, await self._make_request(
                 b'statvfs@openssh.com', String(path)))
 
-            vfsattrs = SFTPVFSAttrs.decode(packet, self._version)
-            packet.check_end()
+            try:
+                vfsattrs = SFTPVFSAttrs.decode(packet, self._version)
+                packet.check_end()
+            except PacketDecodeError as exc:
+                raise SFTPBadMessage(str(exc)) from None
 
             self.logger.debug1('Received %s', vfsattrs)
 
@@ -3074,8 +3083,11 @@ class SFTPClientHandler(SFTPHandler):
             packet = cast(SSHPacket, await self._make_request(
                 b'fstatvfs@openssh.com', String(handle)))
 
-            vfsattrs = SFTPVFSAttrs.decode(packet, self._version)
-            packet.check_end()
+            try:
+                vfsattrs = SFTPVFSAttrs.decode(packet, self._version)
+                packet.check_end()
+            except PacketDecodeError as exc:
+                raise SFTPBadMessage(str(exc)) from None
 
             self.logger.debug1('Received %s', vfsattrs)
 
@@ -3301,8 +3313,11 @@ class SFTPClientHandler(SFTPHandler):
                 b'ranges@asyncssh.com', String(handle),
                 UInt64(offset), UInt64(length)))
 
-            result = SFTPRanges.decode(packet)
-            packet.check_end()
+            try:
+                result = SFTPRanges.decode(packet)
+                packet.check_end()
+            except PacketDecodeError as exc:
+                raise SFTPBadMessage(str(exc)) from None
 
             result.log(self.logger, 'Received')
 
@@ -5750,8 +5765,8 @@ class SFTPClient:
 
             names, _ = await self._handler.realpath(path_bytes)
 
-        if len(names) > 1:
-            raise SFTPBadMessage('Too many names returned')
+        if len(names) != 1:
+            raise SFTPBadMessage('Exactly one name expected')
 
         if check != FXRP_NO_CHECK:
             if self.version < 6:
@@ -5830,8 +5845,8 @@ class SFTPClient:
         linkpath = self.compose_path(path)
         names, _ = await self._handler.readlink(linkpath)
 
-        if len(names) > 1:
-            raise SFTPBadMessage('Too many names returned')
+        if len(names) != 1:
+            raise SFTPBadMessage('Exactly one name expected')
 
         return self.decode(cast(bytes, names[0].filename),
                            isinstance(path, (str, PurePath)))
